@@ -69,9 +69,11 @@ def build_harness(profile):
         binp = os.path.join(tdir, "x86_64-unknown-linux-gnu", "release", "verif-harness")
     else:
         cmd = ["cargo", "build", "--offline", "--quiet", "--target-dir", tdir]
-        if profile == "release":
+        if profile in ("release", "stdfeat"):
             cmd.append("--release")
-        binp = os.path.join(tdir, profile if profile == "release" else "debug", "verif-harness")
+        if profile == "stdfeat":       # release build with micromap's `std` feature switched on
+            cmd += ["--features", "mstd"]
+        binp = os.path.join(tdir, "release" if profile in ("release", "stdfeat") else "debug", "verif-harness")
     p = sh(cmd, cwd=HARNESS, timeout=2400, check=False, env=env)
     if p.returncode != 0:
         raise ToolError("harness build failed (%s):\n%s" % (profile, p.stdout[-6000:]))
@@ -557,7 +559,7 @@ def jobs_for(pid, tier):
         out = []
         for j in js:
             ex = [e for e in extra if e != "miri" or (not q and "n3" not in j["tag"] and j.get("consts", {}).get("Cap", 0) <= 2)]
-            out.append(dict(j, profiles=["debug", "release"] + ex))
+            out.append(dict(j, profiles=["debug", "release"] + ex) if ex else j)
         return out
     table = {
         "C01": shaped(core) + tmap + tbig,
@@ -575,7 +577,7 @@ def jobs_for(pid, tier):
         "C14": tbigset + pairs("eqset", ["eq"], "set", qcaps if q else tcaps) + pairs("eqmap", ["eq"], "map", qcaps[:2] if q else tcaps[:9]),
         "C15": shaped(both("clone", ["clone"])) + both("setclone", ["clone"], mode="set"),
         "C20": both("serde", ["serde"]) + both("setserde", ["serde"], mode="set"),
-        "C06": shaped(core) + both("cursor", ["cursor"]) + both("efdc", ["entry", "fmt", "disjoint", "clone", "unchecked"], consts={"Vers": [0]})
+        "C06": prof(shaped(core), *([] if q else ["stdfeat"])) + both("cursor", ["cursor"]) + both("efdc", ["entry", "fmt", "disjoint", "clone", "unchecked"], consts={"Vers": [0]})
                + shaped(setcore) + both("setclone", ["clone"], mode="set")
                + shaped(both("bulk", ["bulk"], bigconsts={"MaxExtra": 1})) + shaped(both("setbulk", ["bulk"], mode="set", consts={"MaxExtra": 1}, bigconsts={"Vers": [0]}))
                + pairs("alg", ["algebra", "eq"], "set", qcaps[:2] if q else tcaps[:8]) + pairs("eqmap", ["eq"], "map", qcaps[:1] if q else tcaps[:4]),
